@@ -110,14 +110,16 @@ type c07Snap struct {
 	Worker   int      `json:"worker"`
 	Trace    string   `json:"trace"`
 	DataSize int      `json:"data_size"`
-	Impact   int      `json:"cache_impact"`
+	Impact   int      `json:"cache_impact"` // Trace.CacheImpact: what the worker's sort reads
+	Model    int      `json:"model_impact"` // Σ span data size × (⌊4·age/TraceTimeout⌋+1), ages from the driver's own bookkeeping
+	NSpans   int      `json:"spans"`
 	SpanIDs  []string `json:"span_ids"`
 	HasRoot  bool     `json:"has_root"`
 	Env      string   `json:"env"`
 }
 
 // c07Snapshot must run while all workers are parked.
-func c07Snapshot(e *E1, timeout time.Duration) [][]c07Snap {
+func c07Snapshot(e *E1, timeout time.Duration, offsets map[string]time.Duration) [][]c07Snap {
 	ws := e1adWorkers(e.coll)
 	out := make([][]c07Snap, len(ws))
 	for i, w := range ws {
@@ -129,7 +131,9 @@ func c07Snapshot(e *E1, timeout time.Duration) [][]c07Snap {
 			for _, sp := range tr.GetSpans() {
 				id, _ := sp.Data.Get(e1FieldID).(string)
 				s.SpanIDs = append(s.SpanIDs, id)
+				s.Model += sp.GetDataSize() * c07AgeWeight(offsets[id], timeout)
 			}
+			s.NSpans = len(s.SpanIDs)
 			out[i] = append(out[i], s)
 		}
 		sort.SliceStable(out[i], func(a, b int) bool {
@@ -142,13 +146,21 @@ func c07Snapshot(e *E1, timeout time.Duration) [][]c07Snap {
 	return out
 }
 
-// c07Backdate moves the arrival time of every buffered span of the given traces into the past. Parked only.
-func c07Backdate(e *E1, ages map[string]time.Duration) {
+// c07AgeWeight is the reference age weight of a span: 1 plus the number of completed quarters of TraceTimeout
+// since its arrival. The driver never reads a clock for it: arrival times are moved into the past in-package by
+// amounts it records (offset), always mid-quarter, so the few milliseconds a history really takes cannot change it.
+func c07AgeWeight(offset, timeout time.Duration) int { return int(4*offset/timeout) + 1 }
+
+// c07Backdate moves the arrival time of buffered spans into the past by extra(trace, span id, offset so far) and
+// records the new offsets. Parked only.
+func c07Backdate(e *E1, offsets map[string]time.Duration, extra func(trace, span string, cur time.Duration) time.Duration) {
 	for _, w := range e1adWorkers(e.coll) {
 		for _, tr := range e1adBuffered(w) {
-			if d, ok := ages[tr.TraceID]; ok {
-				for _, sp := range tr.GetSpans() {
+			for _, sp := range tr.GetSpans() {
+				id, _ := sp.Data.Get(e1FieldID).(string)
+				if d := extra(tr.TraceID, id, offsets[id]); d > 0 {
 					sp.ArrivalTime = sp.ArrivalTime.Add(-d)
+					offsets[id] += d
 				}
 			}
 		}
@@ -226,8 +238,8 @@ func TestVerif_C07(t *testing.T) {
 	run := verifkit.Start(t, "C07", "collect")
 	defer run.Finish()
 	defer e1TuneRuntime(run)()
-	run.Rule("seeded buffers on the real collector (1-4 workers): 0-14 traces of 1-6 spans with payloads of 0-5000 bytes (2 KB-400 KB in histories with a real memory check), with and without root, over the span limit, partly aged on the fake clock, arrival times backdated by 0-5.5 quarter-timeouts; 1-3 ejection steps per history with more spans in between; budgets from {0,1,P_k-1,P_k,P_k+1,Σ/2,Σ,10Σ,2^40} of the impact-ordered buffer of one worker, sent to one or all workers, or produced by the real monitor→checkAlloc with the limit set just below the heap; samplers with a driver-known decision (field rule, has-root rule, deterministic 1); non-trivial = a partial ejection (0<|E|<|buffer|) on a buffer whose impact order differs from its size order; distinct = (kind, workers, budget class, |buffer| and |E| buckets)")
-	run.Assume("the impact estimate is Trace.CacheImpact(TraceTimeout) as memoised while the worker is parked (the docs do not define it further); equal impacts may be ejected in any order")
+	run.Rule("seeded buffers on the real collector (1-4 workers): 0-14 traces of 1-6 spans with payloads of 0-5000 bytes (2 KB-400 KB in histories with a real memory check), with and without root, over the span limit, partly aged on the fake clock, arrival times backdated by 0-5.5 quarter-timeouts; 1-4 ejection rounds per history with more spans in between; budgets from {0,1,P_k-1,P_k,P_k+1,Σ/2,Σ,10Σ,2^40} of the impact-ordered buffer of one worker, sent to one or all workers, or produced by the real monitor→checkAlloc with the limit set just below the heap; between rounds the survivors age by 1-3 quarter-timeouts and some receive another span; before a real memory check the configured Collection.WorkerCount is reloaded to another value in 60 % of the cases; samplers with a driver-known decision (field rule, has-root rule, deterministic 1); non-trivial = a partial ejection (0<|E|<|buffer|) on a buffer whose impact order differs from its size order; distinct = (kind, workers, budget class, |buffer| and |E| buckets)")
+	run.Assume("the ejection order is judged against Trace.CacheImpact(TraceTimeout) as read while the worker is parked (equal impacts in any order); that value itself is judged against the reference estimate Σ span data size × (1 + completed quarters of TraceTimeout since arrival), with ages known to the driver from its own backdating; a trace without a new span since the previous reading may still carry that reading")
 	run.Assume("no span arrives and no send tick fires during an ejection step; kept-decision capacity far above the trace count; DryRun off")
 
 	run.Cases("ejection", run.N(170, 1000), func(ci int, rng *verifkit.Rand) {
@@ -254,7 +266,9 @@ func TestVerif_C07(t *testing.T) {
 
 		plans := map[string]*c07Plan{}
 		var order []*c07Plan
-		ejected := map[string]bool{} // trace ids that left the buffer by ejection (no more spans for them)
+		offsets := map[string]time.Duration{} // span id → how far its ArrivalTime was moved into the past
+		wallStart := time.Now()               // guard only: a run slower than TraceTimeout/16 does not judge the impact model
+		ejected := map[string]bool{}          // trace ids that left the buffer by ejection (no more spans for them)
 		addTraces := func(n int) {
 			ages := map[string]time.Duration{}
 			for ; n > 0; n-- {
@@ -282,7 +296,59 @@ func TestVerif_C07(t *testing.T) {
 					ages[p.ID] = time.Duration(k)*tt/4 + tt/8
 				}
 			}
-			e.Inspect(func(*E1View) { c07Backdate(e, ages) })
+			e.Inspect(func(*E1View) {
+				c07Backdate(e, offsets, func(trace, _ string, cur time.Duration) time.Duration {
+					if cur == 0 {
+						return ages[trace]
+					}
+					return 0
+				})
+			})
+		}
+		// ageBuffered lets every buffered span grow older by m quarters of TraceTimeout (what a wall-clock wait of that
+		// length does to Span.ArrivalTime-based ages), keeping every span mid-quarter.
+		ageBuffered := func(m int) {
+			e.Inspect(func(*E1View) {
+				c07Backdate(e, offsets, func(_, _ string, cur time.Duration) time.Duration {
+					d := time.Duration(m) * tt / 4
+					if (cur+d)%(tt/4) == 0 {
+						d += tt / 8
+					}
+					return d
+				})
+			})
+		}
+		// checkImpacts: the impact the worker will order by (Trace.CacheImpact, memoised) against the reference
+		// estimate. A trace that received a span since the estimate was last read must have been re-estimated;
+		// a trace without new spans may still carry the estimate of that earlier reading.
+		type c07Eval struct{ nSpans, used int }
+		lastEval := map[string]c07Eval{}
+		checkImpacts := func(snaps [][]c07Snap, kind string) {
+			if time.Since(wallStart) > tt/16 {
+				run.Count("impact_model_checks_skipped_slow_run", 1)
+				return
+			}
+			for _, S := range snaps {
+				for _, sn := range S {
+					prev, seen := lastEval[sn.Trace]
+					cls := "first-estimate"
+					ok := sn.Impact == sn.Model
+					switch {
+					case seen && prev.nSpans == sn.NSpans:
+						cls = "no-new-span-since-last-estimate"
+						ok = ok || sn.Impact == prev.used
+					case seen:
+						cls = "new-span-since-last-estimate"
+					}
+					run.Count("impact_model_checks_"+cls, 1)
+					if !ok {
+						run.Violation("C07/impact/"+kind+"/estimate-differs-from-size-times-age-weight/"+cls,
+							fmt.Sprintf("trace %s (%d spans): the impact used for the ejection order is %d, Σ span size × age weight is %d (previous estimate: %+v)", sn.Trace, sn.NSpans, sn.Impact, sn.Model, prev),
+							map[string]any{"config": cfg.describe(), "trace": sn, "previous_estimate": prev, "seen_before": seen, "trace_timeout": tt.String(), "buffer": S, "ops": e.Ops()})
+					}
+					lastEval[sn.Trace] = c07Eval{sn.NSpans, sn.Impact}
+				}
+			}
 		}
 
 		var obsLog []c07EjectObs
@@ -487,7 +553,8 @@ func TestVerif_C07(t *testing.T) {
 
 		directEject := func() {
 			var snaps [][]c07Snap
-			e.Inspect(func(*E1View) { snaps = c07Snapshot(e, tt) })
+			e.Inspect(func(*E1View) { snaps = c07Snapshot(e, tt, offsets) })
+			checkImpacts(snaps, "direct")
 			target := rng.Intn(workers+1) - 1 // -1: all workers, the way checkAlloc does it
 			ref := target
 			if ref < 0 {
@@ -510,6 +577,17 @@ func TestVerif_C07(t *testing.T) {
 		}
 
 		realEject := func() {
+			wcClass := ""
+			if rng.Chance(0.6) {
+				wcClass = "/after-worker-count-reload"
+				// the CONFIGURED worker count changes; the set of running workers is fixed since Start
+				wc := verifkit.Pick(rng, 1, 2, 3, 8, 32)
+				if wc == workers {
+					wc = workers + 5
+				}
+				e.Reload(fmt.Sprintf("Collection.WorkerCount %d -> %d", workers, wc), func(m *config.MockConfig) { m.GetCollectionConfigVal.WorkerCount = wc })
+				run.Count("real_checks_after_worker_count_reload", 1)
+			}
 			// position: the next two monitor ticks must come before the next send tick
 			for i := 0; i < 8 && e.Failed() == ""; i++ {
 				now := e.Now()
@@ -533,7 +611,8 @@ func TestVerif_C07(t *testing.T) {
 			if !e.park() {
 				return
 			}
-			snaps := c07Snapshot(e, tt)
+			snaps := c07Snapshot(e, tt, offsets)
+			checkImpacts(snaps, "real")
 			ref := rng.Intn(workers)
 			target := pickBudget(snaps[ref])
 			if target > 1<<30 {
@@ -679,7 +758,7 @@ func TestVerif_C07(t *testing.T) {
 				share := int(heap-uint64(limit)) / workers
 				for w, b := range budgets {
 					if b != share {
-						run.Violation("C07/checkAlloc/overage-not-split-evenly", fmt.Sprintf("heap %d, limit %d, %d workers: each share is %d bytes, worker %d was asked for %d", heap, limit, workers, share, w, b),
+						run.Violation("C07/checkAlloc/overage-not-split-evenly"+wcClass, fmt.Sprintf("heap %d, limit %d, %d running workers: each share is %d bytes, worker %d was asked for %d", heap, limit, workers, share, w, b),
 							map[string]any{"config": cfg.describe(), "ejection": o, "via": how, "ops": e.Ops()})
 						break
 					}
@@ -699,28 +778,31 @@ func TestVerif_C07(t *testing.T) {
 		if rng.Chance(0.4) {
 			c07Advance(e, verifkit.Pick(rng, tick, 2*tick, 600*time.Millisecond, 1100*time.Millisecond, 2300*time.Millisecond))
 		}
-		nEj := rng.Range(1, 3)
+		nEj := rng.Range(1, 4)
 		realAt := -1
 		if withReal {
 			realAt = rng.Intn(nEj)
 		}
 		for k := 0; k < nEj && e.Failed() == "" && !abandoned; k++ {
 			if k > 0 {
-				addTraces(rng.Range(0, 6))
-				// more spans for traces that are still buffered (resets their memoised impact)
+				// survivors of the previous round grow older, then some of them receive another span
+				if rng.Chance(0.6) {
+					ageBuffered(rng.Range(1, 3))
+				}
 				var still []string
 				e.Inspect(func(v *E1View) {
 					for _, b := range v.Buffered() {
 						still = append(still, b.Trace)
 					}
 				})
-				for n := rng.Range(0, 3); n > 0 && len(still) > 0; n-- {
+				for n := rng.Range(0, 4); n > 0 && len(still) > 0; n-- {
 					p := plans[still[rng.Intn(len(still))]]
 					s := e.NewSpan(p.ID, "child")
 					s.Env, s.Dataset = p.Env, "ds-"+p.Env
 					s.Fields = map[string]any{"verif.keep": e1KeepValue(p.Keep), "pad": c07Pad(rng, withReal)}
 					_ = e.AddSpan(s)
 				}
+				addTraces(rng.Range(0, 6))
 				if rng.Chance(0.3) {
 					c07Advance(e, verifkit.Pick(rng, tick, 2*tick, 700*time.Millisecond))
 				}
